@@ -52,34 +52,45 @@ Section Base58Xmr.
       Ok (full ++ pad e (b58enc (slice (cnt * dec_max) (cnt * dec_max + last) b)))
     else Ok full.
 
-  Fixpoint dec_blocks (cnt : nat) (s : list N) : res (list N) :=
-    match cnt with
-    | O => Ok []
-    | S c =>
-        d <- b58dec (firstn enc_max s) ;;
-        r <- dec_blocks c (skipn enc_max s) ;;
-        Ok (unpad dec_max d ++ r)
-    end.
+  (* One block of the decoder.
+     [dec_block] is the decoder the format demands (and the announced repair of defect F2): a block whose
+     Base58 value does not fit the d bytes it stands for (value >= 256^d) is rejected with ValueError.
+     [dec_block_current] is the code as it is today: no such check, the value is silently truncated. *)
+  Definition dec_block (d : nat) (t : list N) : res (list N) :=
+    dec <- b58dec t ;;
+    if be_to_int dec <? 256 ^ N.of_nat d then Ok (unpad d dec) else Err ValueError.
+  Definition dec_block_current (d : nat) (t : list N) : res (list N) :=
+    dec <- b58dec t ;; Ok (unpad d dec).
 
-  (* Base58XmrDecoder.Decode, as the code is: no check that a block value fits its byte width *)
-  Definition decode (s : list N) : res (list N) :=
-    let cnt := (length s / enc_max)%nat in
-    let last := (length s mod enc_max)%nat in
-    last_dec <- of_option (index_of_nat last enc_lens) ValueError ;;
-    full <- dec_blocks cnt s ;;
-    if (0 <? last)%nat then
-      d <- b58dec (slice (cnt * enc_max) (cnt * enc_max + last) s) ;;
-      Ok (full ++ unpad last_dec d)
-    else Ok full.
+  Section Decoder.
+    Variable blk : nat -> list N -> res (list N).
+
+    Fixpoint dec_blocks (cnt : nat) (s : list N) : res (list N) :=
+      match cnt with
+      | O => Ok []
+      | S c =>
+          d <- blk dec_max (firstn enc_max s) ;;
+          r <- dec_blocks c (skipn enc_max s) ;;
+          Ok (d ++ r)
+      end.
+
+    (* Base58XmrDecoder.Decode; BLOCK_ENC_BYTE_LENS.index(last) raises ValueError *)
+    Definition decode_gen (s : list N) : res (list N) :=
+      let cnt := (length s / enc_max)%nat in
+      let last := (length s mod enc_max)%nat in
+      last_dec <- of_option (index_of_nat last enc_lens) ValueError ;;
+      full <- dec_blocks cnt s ;;
+      if (0 <? last)%nat then
+        d <- blk last_dec (slice (cnt * enc_max) (cnt * enc_max + last) s) ;;
+        Ok (full ++ d)
+      else Ok full.
+  End Decoder.
+
+  Definition decode : list N -> res (list N) := decode_gen dec_block.
+  Definition decode_current : list N -> res (list N) := decode_gen dec_block_current.
 
   (* value of a block string (digits most significant first); used by the canonicity lemma *)
   Definition block_value (s : list N) : res N :=
     ds <- mapM (Base58.sym_index alph) s ;; Ok (from_be radix ds).
 
-  (* the block strings the decoder cuts its input into, with the byte width of each *)
-  Fixpoint split_blocks (cnt : nat) (s : list N) : list (list N) :=
-    match cnt with
-    | O => []
-    | S c => firstn enc_max s :: split_blocks c (skipn enc_max s)
-    end.
 End Base58Xmr.
